@@ -24,13 +24,15 @@ type dfile struct {
 	how     string // how the bytes were derived (for replays)
 	data    []byte
 
-	id      age.Identity
-	kclass  string // class used in violation keys (class when empty)
-	marmor  bool   // malformed armor text: own read sizes, no read-ahead bound (it assumes canonical line density)
-	dearmor bool   // armored files whose armor text is of interest on its own
-	hdr16   int    // header + nonce length of the undamaged binary file
-	lead    int    // extra armor text that is not payload (leading white space, CRs)
-	pt      []byte // plaintext (class "valid" only)
+	id        age.Identity
+	kclass    string // class used in violation keys (class when empty)
+	ws        bool   // valid armor with added leading/trailing white space (treated like marmor for read sizes)
+	leadLines int    // white-space-only lines before BEGIN
+	marmor    bool   // malformed armor text: own read sizes, no read-ahead bound (it assumes canonical line density)
+	dearmor   bool   // armored files whose armor text is of interest on its own
+	hdr16     int    // header + nonce length of the undamaged binary file
+	lead      int    // extra armor text that is not payload (leading white space, CRs)
+	pt        []byte // plaintext (class "valid" only)
 
 	streamKey []byte // binary files: key and payload for the direct stream layer
 	parseToo  bool   // binary files whose class is interesting for format.Parse
@@ -310,6 +312,7 @@ func (m *monitor) buildFiles() []*dfile {
 		}
 	}
 	r.Set("malformed_armor_texts", nm)
+	files = append(files, m.wsFiles(seen)...)
 	r.Set("decrypt_side_files", len(files))
 	return files
 }
